@@ -35,7 +35,9 @@ MANIFEST = dict(
 
 # patterns on which Python's re and the regex crate agree (leftmost-first, same syntax)
 PY_PATTERNS = ["a", "b+", "[ab]", "ab|b", "c", "x", "A", "a+b*", "[0-9]", " ", "é", r"\t", "a[bc]?", "y|:"]
-ML_PATTERNS = [r"a\nb", r"b\n", r"a\n+", r"[ab]\n[ab]", r"c\n\n?", r"x\ny"]
+ML_PATTERNS = [r"a\nb", r"b\n", r"a\n+", r"[ab]\n[ab]", r"c\n\n?", r"x\ny",
+               # line-spanning on DOS files, and touching matches (each match ends where the next one starts)
+               r"a\r?\nb", r"[abc]\r?\n", r"[ab1]\r\n[ab1]", r"a1?\n?", r"[ab]1?\n", r"[a-z0-9 ]+\r?\n", r"[ab]1\n[ab]1"]
 ALPH = b"ab xycA\t1:-"
 NAMES = [b"f1", b"f2", b"f3"]
 
@@ -78,7 +80,7 @@ def gen_case(rng):
     pool = PY_PATTERNS + (ML_PATTERNS * 3 if fl["multiline"] else [])
     pat = rng.choice(pool)
     nfiles = rng.randint(1, 3)
-    dos = (not fl["crlf"]) and rng.random() < 0.1      # \r\n line ends searched without --crlf
+    dos = (not fl["crlf"]) and rng.random() < 0.15      # \r\n line ends searched without --crlf
     files = [(NAMES[i], gen_file(rng, fl["crlf"] or dos)) for i in range(nfiles)]
     ctx_on = bool(fl.get("after") or fl.get("before"))
     named = [
@@ -114,6 +116,27 @@ def strip_term(b):
     if b.endswith(b"\n"):
         return b[:-1]
     return b
+
+
+def content(lbytes, crlf):
+    """the content of an input line: without its \\n, and without the \\r before it only under --crlf"""
+    b = lbytes[:-1] if lbytes.endswith(b"\n") else lbytes
+    if crlf and lbytes.endswith(b"\n") and b.endswith(b"\r"):
+        b = b[:-1]
+    return b
+
+
+def rec_text(text, crlf):
+    """the text of a printed record (already cut at \\n): under --crlf the printed terminator is \\r\\n"""
+    return text[:-1] if crlf and text.endswith(b"\r") else text
+
+
+def same_line(text, lbytes, crlf):
+    """byte-for-byte: the printed text is the input line's content (a \\r before \\n is content unless --crlf)"""
+    if crlf:
+        # a line that ended in a bare \\n may be re-terminated with \\r\\n by the slow path, and a \\r\\n line keeps it
+        return rec_text(text, True) == content(lbytes, True) or text == content(lbytes, True)
+    return text == content(lbytes, False)
 
 
 def py_regex(c):
@@ -164,8 +187,8 @@ def check_standard_full(ctx, c, out, v, where):
             v("printed line number is not a line of the input", record=rec)
             continue
         loff, lbytes = lines[lnum - 1]
-        if strip_term(text + b"\n") != strip_term(lbytes):
-            v("printed text is not the input's line at the printed line number", record=rec, line=lbytes)
+        if not same_line(text, lbytes, fl.get("crlf")):
+            v("printed text is not byte-for-byte the input's line at the printed line number", record=rec, line=lbytes)
         if off != loff:
             v("printed byte offset is not the offset of that line", record=rec, expected=loff)
         if lnum in seen.setdefault(path, set()):
@@ -173,8 +196,7 @@ def check_standard_full(ctx, c, out, v, where):
         seen[path].add(lnum)
         if is_match and not fl.get("multiline") and not fl.get("invert"):
             col = int(m.group(3))
-            content = strip_term(lbytes)
-            mm = rx.search(content)
+            mm = rx.search(content(lbytes, fl.get("crlf")))
             if mm is None:
                 v("a line printed as a match does not match (independent engine)", record=rec)
             elif col != mm.start() + 1:
@@ -185,11 +207,14 @@ def check_standard_full(ctx, c, out, v, where):
                 v("--passthru did not print every line exactly once", file=p)
 
 
-def check_vimgrep(ctx, c, out, v, where):
-    """mode `vim` in line mode: one record per match, column = 1 + start of that match"""
+def check_vimgrep(ctx, c, out, v, where, multi=False):
+    """mode `vim` (--vimgrep = per match, first line only): one record per match; its line number and column are those
+    of the start of the match, its text the input line there.  Line mode: matches of each line; multi-line strategy:
+    the successive matches of the whole input (independent engine)."""
     fl = c["flags"]
-    if not fl.get("line_number") or fl.get("multiline") or fl.get("invert"):
+    if not fl.get("line_number") or fl.get("invert"):
         return
+    crlf = fl.get("crlf")
     files = {p: split_lines(d) for p, d in c["files"]}
     rx = py_regex(c)
     got = {}
@@ -204,16 +229,39 @@ def check_vimgrep(ctx, c, out, v, where):
             continue
         path, lnum, col, text = m.group(1), int(m.group(2)), int(m.group(3)), m.group(4)
         lines = files[path]
-        if not (1 <= lnum <= len(lines)) or strip_term(text + b"\n") != strip_term(lines[lnum - 1][1]):
-            v("--vimgrep text is not the input's line", record=rec)
+        if not (1 <= lnum <= len(lines)) or not same_line(text, lines[lnum - 1][1], crlf):
+            v("--vimgrep text is not byte-for-byte the input's line at the printed line number", record=rec)
             continue
-        got.setdefault((path, lnum), []).append(col)
-    for (path, lnum), cols in got.items():
-        content = strip_term(files[path][lnum - 1][1])
-        want = [mm.start() + 1 for mm in rx.finditer(content)]
-        # the printers drop an empty match at the very end of an unterminated last line (D2, C10/C19)
-        if cols != want and not (want and cols == want[:-1] and not files[path][lnum - 1][1].endswith(b"\n")):
-            v("--vimgrep columns are not 1 + start of each match", file=path, lnum=lnum, got=cols, expected=want)
+        got.setdefault(path, []).append((lnum, col))
+    for path, data in c["files"]:
+        lines = files[path]
+        want = []
+        d2_last = False
+        if multi:
+            starts = [off for off, _ in lines]
+            for mm in rx.finditer(data):
+                if mm.start() == mm.end():
+                    continue
+                import bisect
+                k = bisect.bisect_right(starts, mm.start()) - 1
+                want.append((k + 1, mm.start() - starts[k] + 1))
+        else:
+            for k, (off, lb) in enumerate(lines):
+                ms = [mm.start() + 1 for mm in rx.finditer(content(lb, crlf))]
+                # the printers drop an empty match at the very end of an unterminated last line (D2, C10/C19)
+                if ms and not lb.endswith(b"\n") and k == len(lines) - 1:
+                    last = list(rx.finditer(content(lb, crlf)))[-1]
+                    if last.start() == last.end() == len(content(lb, crlf)):
+                        ms = ms[:-1]
+                        if not ms:
+                            d2_last = True
+                            ms = [None]      # the line is printed by the fast path, without a column... as path:lnum:text
+                want += [(k + 1, col) for col in ms]
+        if d2_last:
+            continue
+        if got.get(path, []) != want:
+            v("--vimgrep records are not (line, column) of the start of each match, in order", file=path,
+              got=got.get(path, []), expected=want, multi=multi)
 
 
 def data_value(d):
@@ -293,7 +341,7 @@ def check_case_oracles(ctx, c, outs, where):
     def v(what, **kw):
         bad.append((what, kw))
     check_standard_full(ctx, c, as_bytes(outs["full"][0]), v, where)
-    check_vimgrep(ctx, c, as_bytes(outs["vim"][0]), v, where)
+    check_vimgrep(ctx, c, as_bytes(outs["vim"][0]), v, where, multi=bool(outs.get("_multi")))
     check_json(ctx, c, outs["json"][0], v, where)
     for what, kw in bad:
         ctx.violation("%s: %s" % (where, what),
@@ -401,6 +449,7 @@ def run_batch(ctx, cases, cli_every):
             feat["long_line"] = feat.get("long_line", 0) + 1
         if any(d and not d.endswith(b"\n") for _, d in c["files"]):
             feat["no_final_newline"] = feat.get("no_final_newline", 0) + 1
+        outs["_multi"] = r[4]
         check_case_oracles(ctx, c, outs, "library")
         if nontrivial:
             ctx.sample(dict(pattern=c["pattern"], flags={k2: v2 for k2, v2 in c["flags"].items() if v2},
@@ -430,6 +479,13 @@ def corpus():
         mk(r"a\n+", dict(L, multiline=1, after=1), [b"a\n\nb\na\nc\n"]),
         mk("a", dict(L, invert=1, after=1), [b"a\nb\na\n"]),
         mk("x", L, [b"y" * 300 + b"x\n" + b"x" + b"z" * 200]),
+        # DOS line ends without --crlf on the paths that trim the terminator and write their own
+        mk(r"one\r\nbeta", dict(L, multiline=1), [b"beta one\r\nbeta two\r\nx\r\n"]),
+        mk(r"[a-z]+\r?\n", dict(L, multiline=1), [b"ab\r\ncd\r\n\r\nef"]),
+        mk("a", L, [b"a\r\nb\r\nxa\r\n"]),
+        # touching matches merged into one block, the later ones starting at the beginning of a line (--vimgrep)
+        mk(r"a[0-9]\nb[0-9]", dict(L, multiline=1), [b"a1\nb1\na2\nb2\n", b"x\na1\nb1\na2\nb2"]),
+        mk(r"[ab]1?\n", dict(L, multiline=1), [b"a1\nb\na\nx\nb1\n"]),
     ]
 
 
